@@ -202,7 +202,13 @@ func (w *world) genToken(pending map[common.Hash]*intent) {
 	var data []byte
 	gas := uint64(types.MinGasLimit)
 	kind := "token"
-	if cs := w.liveContracts(kSink, kGate); len(cs) > 0 && w.r.Chance(0.35) {
+	targets := []ckind{kSink, kGate}
+	if w.r.Chance(0.4) {
+		// token value sent into a call that fails (REVERT / out of gas / invalid opcode): the credit of a
+		// token the contract never held has to be undone with the rest of the frame
+		targets = []ckind{kReverter, kLooper, kInvalid}
+	}
+	if cs := w.liveContracts(targets...); len(cs) > 0 && w.r.Chance(0.35) {
 		ci := cs[w.r.Intn(len(cs))]
 		to = ci.Addr
 		kind = "tokencall"
@@ -210,6 +216,13 @@ func (w *world) genToken(pending map[common.Hash]*intent) {
 			data = []byte{1}
 		}
 		gas = 400000 + 2*feeGas(new(big.Int).Add(w.cur.get(ci.Addr, lkc), lk(100)))
+		if ci.Kind == kGate && w.r.Chance(0.35) {
+			// too little gas for the callee's first instructions: the frame fails AFTER the token value was
+			// credited to a contract that (mostly) never held this token; later transactions of the same
+			// block (plain calls, the self-destruct path) touch the same contract
+			gas = intrinsic(data, false) + uint64(w.r.Intn(8))
+			kind = "tokencall-lowgas"
+		}
 	} else {
 		to = w.anyEOA()
 	}
@@ -217,7 +230,13 @@ func (w *world) genToken(pending map[common.Hash]*intent) {
 	if err := tx.Sign(types.GlobalSTDSigner, w.acct(a).Key); err != nil {
 		return
 	}
-	w.submit(pending, tx, &intent{Kind: kind, From: w.acct(a).Addr, To: to, Token: t, Value: v, Data: data, Gas: gas, acct: a})
+	ik := kind
+	if ik == "tokencall-lowgas" {
+		ik = "tokencall"
+	}
+	if w.submit(pending, tx, &intent{Kind: ik, From: w.acct(a).Addr, To: to, Token: t, Value: v, Data: data, Gas: gas, acct: a}) && kind != ik {
+		w.c.Count("submitted:"+kind, 1)
+	}
 }
 
 func (w *world) genCreate(pending map[common.Hash]*intent) {
@@ -720,6 +739,10 @@ func (w *world) replay(res *stepResult, pending map[common.Hash]*intent) (*block
 		delete(pending, tx.Hash())
 		switch it.Kind {
 		case "transfer", "call", "token", "tokencall":
+			if it.Kind == "tokencall" && !ok && it.Value.Sign() > 0 {
+				w.c.Count("failed_token_calls_with_value", 1)
+				w.c.Count("failed_token_calls_with_value:"+rc.VMErr, 1)
+			}
 			m.bal.sub(it.From, lkc, fee)
 			if ok {
 				m.bal.sub(it.From, it.Token, it.Value)
